@@ -416,3 +416,14 @@ def shape1(t):
     if 'c' not in t:
         return kd(t)
     return f"{t['k']}({','.join(kd(c) for c in t['c'])})"
+
+
+def realify(t):
+    """The same tree with every integer literal turned into a real literal: evaluated under the real
+    typing, every division is then exact. Used only to CLASSIFY a failure (is it explained by treating
+    Fortran's truncating integer division as exact division?)."""
+    if t['k'] in ('int', 'rawint'):
+        return {'k': 'real', 'n': t['v'], 'd': 1}
+    if 'c' in t:
+        return dict(t, c=[realify(c) for c in t['c']])
+    return t
